@@ -2,27 +2,27 @@ From Aelys Require Import Base.Tactics Extracted.AsiTokens Extracted.ParserSets 
                           Proofs.ExprStartProofs.
 
 (* the state after a prefix *)
-Fixpoint block_state (l : list bitem) (last : option nat) (need_sep : bool) (i : nat)
-  : option (option nat * bool * nat) :=
+Fixpoint block_state (l : list bitem) (last : option nat) (need_sep : bool) (i pushed : nat)
+  : option (option nat * bool * nat * nat) :=
   match l with
-  | [] => Some (last, need_sep, i)
-  | BSemi :: r => block_state r last false i
+  | [] => Some (last, need_sep, i, pushed)
+  | BSemi :: r => block_state r last false i pushed
   | BExpr k :: r =>
       if need_sep then None
-      else if expr_start_listed k then block_state r (Some i) true (S i)
-      else block_state r None true (S i)
-  | BTerm :: r => if need_sep then None else block_state r None true i
-  | BBlock :: r => if need_sep then None else block_state r None false i
+      else if expr_start_listed k then block_state r (Some i) true (S i) (pushed + pending_stmt last)
+      else block_state r None true (S i) (S (pushed + pending_stmt last))
+  | BTerm :: r => if need_sep then None else block_state r None true i (S (pushed + pending_stmt last))
+  | BBlock :: r => if need_sep then None else block_state r None false i (S (pushed + pending_stmt last))
   end.
 
-Lemma block_go_app : forall l1 l2 last ns i,
-  block_go (l1 ++ l2) last ns i
-  = match block_state l1 last ns i with
-    | Some (last', ns', i') => block_go l2 last' ns' i'
+Lemma block_go_app : forall l1 l2 last ns i p,
+  block_go (l1 ++ l2) last ns i p
+  = match block_state l1 last ns i p with
+    | Some (last', ns', i', p') => block_go l2 last' ns' i' p'
     | None => ParseError
     end.
 Proof.
-  induction l1 as [|b r IH]; intros l2 last ns i; [reflexivity|].
+  induction l1 as [|b r IH]; intros l2 last ns i p; [reflexivity|].
   destruct b as [k| | |]; cbn [app block_go block_state].
   - destruct ns; [reflexivity|]. destruct (expr_start_listed k); apply IH.
   - apply IH.
@@ -31,19 +31,26 @@ Proof.
 Qed.
 
 (* a run of semicolons only clears need_sep *)
-Lemma block_go_semis : forall ss l last ns i,
-  forallb is_semi ss = true -> ss <> [] -> block_go (ss ++ l) last ns i = block_go l last false i.
+Lemma block_go_semis : forall ss l last ns i p,
+  forallb is_semi ss = true -> ss <> [] -> block_go (ss ++ l) last ns i p = block_go l last false i p.
 Proof.
-  induction ss as [|b r IH]; intros l last ns i H N; [congruence|].
+  induction ss as [|b r IH]; intros l last ns i p H N; [congruence|].
   destruct b; cbn [forallb is_semi] in H; try discriminate. cbn [app block_go].
   destruct r as [|b' r']; [reflexivity|]. apply IH; [exact H|discriminate].
+Qed.
+
+Lemma block_go_semis_any : forall ss l last i p,
+  forallb is_semi ss = true -> block_go (ss ++ l) last false i p = block_go l last false i p.
+Proof.
+  intros ss l last i p H. destruct ss as [|b r]; [reflexivity|].
+  apply block_go_semis; [exact H|discriminate].
 Qed.
 
 (* `;;`: a second semicolon after a semicolon changes nothing *)
 Lemma double_semi_lemma l1 l2 : block_value (l1 ++ BSemi :: BSemi :: l2) = block_value (l1 ++ BSemi :: l2).
 Proof.
   unfold block_value. rewrite !block_go_app.
-  destruct (block_state l1 None false 0) as [[[last ns] i]|]; reflexivity.
+  destruct (block_state l1 None false 0 0) as [[[[last ns] i] p]|]; reflexivity.
 Qed.
 
 (* a semicolon (or the newline the lexer turns into one) directly before the closing `}` changes
@@ -51,17 +58,16 @@ Qed.
 Lemma trailing_semi_lemma l : block_value (l ++ [BSemi]) = block_value l.
 Proof.
   unfold block_value. rewrite block_go_app. rewrite <- (app_nil_r l) at 2. rewrite block_go_app.
-  destruct (block_state l None false 0) as [[[last ns] i]|]; reflexivity.
+  destruct (block_state l None false 0 0) as [[[[last ns] i] p]|]; reflexivity.
 Qed.
 
-(* a semicolon after an item that needs one is the same as the closing `}` right there ... *)
 (* redundant parentheses: an expression item whose first kind is listed may begin with `(` instead *)
 Lemma grouping_item_lemma l1 k l2 :
   expr_start_listed k = true ->
   block_value (l1 ++ BExpr k :: l2) = block_value (l1 ++ BExpr TLParen :: l2).
 Proof.
   intro H. unfold block_value. rewrite !block_go_app.
-  destruct (block_state l1 None false 0) as [[[last ns] i]|]; [|reflexivity].
+  destruct (block_state l1 None false 0 0) as [[[[last ns] i] p]|]; [|reflexivity].
   cbn [block_go]. rewrite H. reflexivity.
 Qed.
 
@@ -70,28 +76,125 @@ Lemma grouping_item_any_lemma l1 k l2 :
   block_value (l1 ++ BExpr k :: l2) = block_value (l1 ++ BExpr TLParen :: l2).
 Proof. intro H. apply grouping_item_lemma. apply expr_start_complete_lemma. exact H. Qed.
 
-(* the statement-vs-expression decision for the tail: after any accepted prefix that does not
-   leave an item waiting for its separator, an expression followed only by semicolons is the value *)
-Lemma tail_expression_is_value l k ss last i :
-  block_state l None false 0 = Some (last, false, i) ->
-  can_begin_expression k = true -> forallb is_semi ss = true ->
-  block_value (l ++ BExpr k :: ss) = Value i.
+(* once a statement has been pushed the block is rejected, whatever follows *)
+Lemma pushed_rejects : forall l last ns i p, (0 < p)%nat -> block_go l last ns i p = ParseError.
 Proof.
-  intros S H Hs. unfold block_value. rewrite block_go_app, S. cbn [block_go].
-  rewrite (expr_start_complete_lemma k H).
-  destruct ss as [|b r]; [reflexivity|].
-  rewrite <- (app_nil_r (b :: r)). rewrite block_go_semis; [reflexivity|exact Hs|discriminate].
+  induction l as [|b r IH]; intros last ns i p H.
+  - cbn [block_go]. destruct p; [lia|reflexivity].
+  - destruct b as [k| | |]; cbn [block_go].
+    + destruct ns; [reflexivity|]. destruct (expr_start_listed k); apply IH; lia.
+    + apply IH; exact H.
+    + destruct ns; [reflexivity|apply IH; lia].
+    + destruct ns; [reflexivity|apply IH; lia].
 Qed.
 
-(* ... and a statement in tail position makes the block yield null *)
-Lemma tail_statement_is_null l ss last i :
-  block_state l None false 0 = Some (last, false, i) -> forallb is_semi ss = true ->
-  block_value (l ++ BTerm :: ss) = Null /\ block_value (l ++ BBlock :: ss) = Null.
+(* a statement anywhere in the block makes it a parse error *)
+Lemma statement_rejects : forall l last ns i p,
+  existsb is_stmt_item l = true -> block_go l last ns i p = ParseError.
 Proof.
-  intros S Hs. unfold block_value. rewrite !block_go_app, S. cbn [block_go].
-  destruct ss as [|b r]; [split; reflexivity|].
-  rewrite <- (app_nil_r (b :: r)). rewrite !block_go_semis; try exact Hs; try discriminate.
-  split; reflexivity.
+  induction l as [|b r IH]; intros last ns i p H; [discriminate|].
+  destruct b as [k| | |]; cbn [existsb is_stmt_item orb] in H; cbn [block_go].
+  - destruct ns; [reflexivity|]. destruct (expr_start_listed k); apply IH; exact H.
+  - apply IH; exact H.
+  - destruct ns; [reflexivity|apply pushed_rejects; lia].
+  - destruct ns; [reflexivity|apply pushed_rejects; lia].
+Qed.
+
+Lemma statement_rejects_lemma l : existsb is_stmt_item l = true -> block_value l = ParseError.
+Proof. apply statement_rejects. Qed.
+
+(* a second expression item makes the first one a statement: rejected as well *)
+Lemma two_expressions_reject l1 k1 l2 k2 l3 :
+  block_value (l1 ++ BExpr k1 :: l2 ++ BExpr k2 :: l3) = ParseError.
+Proof.
+  unfold block_value. rewrite block_go_app.
+  destruct (block_state l1 None false 0 0) as [[[[last ns] i] p]|]; [|reflexivity].
+  cbn [block_go]. destruct ns; [reflexivity|].
+  assert (G : forall l2 last' ns' i' p', (last' <> None \/ 0 < p')%nat ->
+              block_go (l2 ++ BExpr k2 :: l3) last' ns' i' p' = ParseError).
+  { clear. induction l2 as [|b r IH]; intros last' ns' i' p' H.
+    - cbn [app block_go]. destruct ns'; [reflexivity|].
+      assert (0 < p' + pending_stmt last')%nat.
+      { destruct H as [H|H]; [destruct last'; [cbn; lia|congruence]|lia]. }
+      destruct (expr_start_listed k2); apply pushed_rejects; lia.
+    - destruct b as [k| | |]; cbn [app block_go].
+      + destruct ns'; [reflexivity|]. destruct (expr_start_listed k); apply IH.
+        * left; discriminate.
+        * right; lia.
+      + apply IH; exact H.
+      + destruct ns'; [reflexivity|apply IH; right; lia].
+      + destruct ns'; [reflexivity|apply IH; right; lia]. }
+  destruct (expr_start_listed k1); apply G; [left; discriminate|right; lia].
+Qed.
+
+(* the accepted value blocks: semicolons, one expression, semicolons -- its value is that expression;
+   and the empty block (semicolons only) yields null *)
+Lemma single_expression_lemma s1 k s2 :
+  forallb is_semi s1 = true -> forallb is_semi s2 = true -> can_begin_expression k = true ->
+  block_value (s1 ++ BExpr k :: s2) = Value 0.
+Proof.
+  intros H1 H2 Hk. unfold block_value. rewrite block_go_semis_any by exact H1.
+  cbn [block_go]. rewrite (expr_start_complete_lemma k Hk). cbn [pending_stmt].
+  rewrite <- (app_nil_r s2). destruct s2 as [|b r]; [reflexivity|].
+  rewrite block_go_semis; [reflexivity|exact H2|discriminate].
+Qed.
+
+Lemma empty_block_lemma ss : forallb is_semi ss = true -> block_value ss = Null.
+Proof.
+  intro H. unfold block_value. rewrite <- (app_nil_r ss). rewrite block_go_semis_any by exact H. reflexivity.
+Qed.
+
+
+(* conversely: an accepted value block IS its single expression *)
+Fixpoint n_exprs (l : list bitem) : nat :=
+  match l with [] => O | BExpr _ :: r => S (n_exprs r) | _ :: r => n_exprs r end.
+
+Lemma no_expr_no_stmt_semis l : n_exprs l = O -> existsb is_stmt_item l = false -> forallb is_semi l = true.
+Proof.
+  induction l as [|b r IH]; intros H1 H2; [reflexivity|].
+  destruct b; cbn [n_exprs existsb is_stmt_item orb forallb is_semi andb] in *; try discriminate.
+  apply IH; assumption.
+Qed.
+
+Lemma one_expr_split l : (1 <= n_exprs l)%nat ->
+  exists s1 k s2, l = s1 ++ BExpr k :: s2 /\ n_exprs s1 = O /\ n_exprs s2 = (n_exprs l - 1)%nat.
+Proof.
+  induction l as [|b r IH]; intro H; [cbn in H; lia|].
+  destruct b as [k| | |].
+  - exists [], k, r. cbn [n_exprs app]. repeat split; lia.
+  - cbn [n_exprs] in *. destruct (IH H) as [s1 [k [s2 [E [A B]]]]]. exists (BSemi :: s1), k, s2. subst r. repeat split; assumption.
+  - cbn [n_exprs] in *. destruct (IH H) as [s1 [k [s2 [E [A B]]]]]. exists (BTerm :: s1), k, s2. subst r. repeat split; assumption.
+  - cbn [n_exprs] in *. destruct (IH H) as [s1 [k [s2 [E [A B]]]]]. exists (BBlock :: s1), k, s2. subst r. repeat split; assumption.
+Qed.
+
+Lemma existsb_app_false {A} (f : A -> bool) a b : existsb f (a ++ b) = false -> existsb f a = false /\ existsb f b = false.
+Proof. rewrite existsb_app. apply orb_false_iff. Qed.
+
+Lemma accepted_is_single_expression l j : block_value l = Value j ->
+  j = O /\ exists s1 k s2, l = s1 ++ BExpr k :: s2
+                           /\ forallb is_semi s1 = true /\ forallb is_semi s2 = true /\ expr_start_listed k = true.
+Proof.
+  intro H.
+  destruct (existsb is_stmt_item l) eqn:St; [rewrite (statement_rejects_lemma l St) in H; discriminate|].
+  destruct (n_exprs l) as [|n] eqn:N.
+  { rewrite (empty_block_lemma l (no_expr_no_stmt_semis l N St)) in H. discriminate. }
+  destruct (one_expr_split l ltac:(lia)) as [s1 [k [s2 [E [A B]]]]]. subst l.
+  destruct (existsb_app_false _ _ _ St) as [St1 St2]. cbn [existsb is_stmt_item orb] in St2.
+  destruct n as [|n'].
+  - (* exactly one expression *)
+    assert (S1 : forallb is_semi s1 = true) by (apply no_expr_no_stmt_semis; assumption).
+    assert (S2 : forallb is_semi s2 = true) by (apply no_expr_no_stmt_semis; [lia|assumption]).
+    unfold block_value in H. rewrite block_go_semis_any in H by exact S1. cbn [block_go pending_stmt Nat.add] in H.
+    destruct (expr_start_listed k) eqn:L.
+    + assert (V : block_go s2 (Some 0%nat) true 1 0 = Value 0).
+      { rewrite <- (app_nil_r s2). destruct s2 as [|b r]; [reflexivity|].
+        rewrite block_go_semis; [reflexivity|exact S2|discriminate]. }
+      rewrite V in H. injection H as <-. split; [reflexivity|].
+      exists s1, k, s2. repeat split; assumption.
+    + rewrite pushed_rejects in H by lia. discriminate.
+  - (* two or more expressions: rejected *)
+    exfalso. destruct (one_expr_split s2 ltac:(lia)) as [t1 [k2 [t2 [E2 _]]]]. subst s2.
+    rewrite two_expressions_reject in H. discriminate.
 Qed.
 
 (* ------------------------------------------------------------------ statement sequences *)
